@@ -168,6 +168,43 @@ def sneddon_exact(E, R, nu, delta):
     return E / (1 - nu ** 2) * ((R * R + a * a) / 2 * math.log((R + a) / (R - a)) - a * R)
 
 
+def unit_dtype_bound(tier, seed):
+    """A1 (reals) hides the element type of the indentation array: "every indentation array" includes integer and
+    single-precision arrays; the force must be the one for the same values in double precision (bounded stand-in)"""
+    import importlib
+    import numpy as np
+    t0 = time.time()
+    res = UnitResult(unit="bounded.array_dtypes")
+    problems, ne = [], 0
+    for key, (modname, fname) in M.MODELS.items():
+        mod = importlib.import_module(f"nanite.model.{modname}")
+        fn = getattr(mod, fname)
+        defaults = mod.get_parameter_defaults()
+        kw = {k: defaults[k].value for k in defaults}
+        kw.update(contact_point=0, baseline=1)
+        for big in ("R", "E", "E_S", "E_L", "h"):
+            if big in kw:
+                kw[big] = {"R": 2.0, "h": 5.0}.get(big, 1e3)
+        ref = np.array([3, 1, 0, -1, -2], dtype=float)
+        want = fn(delta=ref.copy(), **kw)
+        for dt in (np.int64, np.int32, np.float32):
+            got = fn(delta=ref.astype(dt), **kw)
+            ne += 1
+            if not np.allclose(np.asarray(got, dtype=float), want, rtol=1e-6, atol=0):
+                problems.append({"model": key, "dtype": np.dtype(dt).name, "delta": ref.tolist(),
+                                 "got": np.asarray(got, dtype=float).tolist(), "want": want.tolist()})
+    first = problems[0] if problems else None
+    res.bounded.append(BoundedResult(
+        bid="C02.bounded.force_independent_of_array_dtype", ok=not problems, evaluations=ne, distinct=ne,
+        bound="5 shipped model functions x indentation [3, 1, 0, -1, -2] as int64 / int32 / float32 against float64 "
+              "(R = 2, contact point 0, baseline 1)",
+        detail="same force for every element type" if not problems else
+        f"{first['model']} with a {first['dtype']} array: {first['got']} instead of {first['want']}"[:300],
+        samples=[], failing_input=first, witness="" if not problems else f"{first['model']}:{first['dtype']}",
+        time_s=round(time.time() - t0, 2)))
+    return res
+
+
 def unit_sneddon_bound(tier, seed):
     import numpy as np
     from nanite.model import model_sneddon_spherical_approximation as ms
@@ -243,6 +280,7 @@ def unit_canaries(tier, seed):
 def units(tier):
     us = [Unit(f"model.{k}", unit_model, key=k) for k in M.MODELS]
     us.append(Unit("bounded.sneddon_1e-4", unit_sneddon_bound))
+    us.append(Unit("bounded.array_dtypes", unit_dtype_bound))
     # "each shipped model returns ..." is what NaniteFitModel.model returns: the direction-agnostic wrapper around the
     # model function is part of the path (contract shared with C13)
     from . import resid
